@@ -2,7 +2,7 @@
    This file holds ONLY the property theorems (each closed by `exact <lemma>`) and their Print Assumptions. *)
 From Coq Require Import ZArith List Bool.
 From Verif Require Import X86.X86Model X86.X86Proofs X86.X86Denote X86.X86DenoteProofs X86.X86DbCheck.
-From Verif Require Import X86.X86TablesSpec X86.X86Unique X86.X86UniqueProofs X86.X86JudgeProofs X86.X86LengthProofs X86.X86Choice.
+From Verif Require Import X86.X86TablesSpec X86.X86Unique X86.X86UniqueProofs X86.X86JudgeProofs X86.X86LengthProofs X86.X86Choice X86.X86EncProofs X86.X86PrefixOrder X86.X86Reencode X86.X86FrameProofs X86.X86Shortest X86.X86Leg32.
 From VerifGen Require Import IsaX86Db X86Tables.
 Import ListNotations.
 Local Open Scope Z_scope.
@@ -184,6 +184,15 @@ Theorem C01_denote_sound : forall m bs rid ops dd len,
 Proof. exact (denote_sound bucket). Qed.
 Print Assumptions C01_denote_sound.
 
+(* ... and conversely (round 6): every row of the head's bucket that passes its constraints contributes its reading -- together with
+   C01_denote_sound, `denote` is exactly the set of readings of the structural decoder under the database rows *)
+Theorem C01_denote_complete : forall m bs h rest r s r2 ops0,
+  sdec_head m bs = Some (h, rest) -> In r (bucket (rh_opc h)) -> head_ok m r h = true ->
+  sdec_tail m h (shape_of_row m r h) rest = Some (s, r2) -> tail_ok m r s = true -> mk_operands m r s (r_ops r) = Some ops0 ->
+  In (r_id r, rel_from_start (r_ops r) ops0 (Z.of_nat (length bs - length r2)), deco_of r s, (length bs - length r2)%nat) (denote bucket m bs).
+Proof. exact (denote_complete bucket). Qed.
+Print Assumptions C01_denote_complete.
+
 (* what the verdict 0 of the judge (run on every accepted call of the harness) means *)
 Theorem C01_judge_ok_spec : forall m name ops dc bs,
   fst (judge bucket wbucket row_of m name ops dc bs) = 0 ->
@@ -312,6 +321,236 @@ Theorem C01_example_readings_of_9b :
   map (fun c => match c with (_, _, _, len) => len end) (denote2 bucket wbucket M32 [155; 221; 56]) = [1%nat; 3%nat].
 Proof. exact ex_fwait_alone. Qed.
 Print Assumptions C01_example_readings_of_9b.
+
+(* round 6: FRAME.  A reading depends only on the bytes it consumes plus at most ONE byte of lookahead (the byte after C4 / C5 / 62 / 8F,
+   which in 32-bit mode separates les / lds / bound / pop from VEX / EVEX / XOP): every reading of a byte string -- row, operands,
+   decorations, length -- is a reading of its first `len` bytes followed by ANY bytes whose first byte is the original next byte.  For all rows, modes, byte strings: what follows an instruction in the buffer cannot change how
+   it is read.  (X86FrameProofs.v: every decoder of the model consumes a prefix of its input and returns the rest untouched.) *)
+Theorem C01_denote_frame : forall m bs rid ops dd len,
+  In (rid, ops, dd, len) (denote2 bucket wbucket m bs) ->
+  forall t, hd_error t = hd_error (skipn len bs) ->
+  In (rid, ops, dd, len) (denote2 bucket wbucket m (firstn len bs ++ t)).
+Proof. exact (denote2_frame bucket wbucket). Qed.
+Print Assumptions C01_denote_frame.
+
+(* ... and for THIS database the lookahead condition is discharged: every legacy map-0 row with opcode C4 / C5 / 62 / 8F (les, lds, bound,
+   pop r/m) consumes a ModRM byte (db_lookahead_safe, reflection over both bucket functions), so the byte the head decoder looks at is one
+   the reading consumes.  Every reading is a reading of its first `len` bytes followed by ANY bytes: for all byte strings, modes and
+   rows of the database, what follows an instruction in the buffer cannot change how it is read *)
+Theorem C01_denote_frame_all : forall m bs rid ops dd len,
+  In (rid, ops, dd, len) (denote2 bucket wbucket m bs) ->
+  forall t, In (rid, ops, dd, len) (denote2 bucket wbucket m (firstn len bs ++ t)).
+Proof.
+  pose proof db_lookahead_safe as H. apply andb_prop in H. destruct H as [H1 H2].
+  exact (denote2_frame_all bucket wbucket H1 H2).
+Qed.
+Print Assumptions C01_denote_frame_all.
+
+(* end-to-end completeness (round 6): the judge ACCEPTS every specification encoding.  For a well-formed instruction s under any admissible
+   encoder choice and any admissible prefix order that satisfies the constraints of a database row r of its opcode bucket, the bytes
+   senc_ord ps s are judged 0 for every call whose decorations and operands match what the row's inverse operand map reads off s.  So a
+   verdict other than 0 on an accepted call is never an artefact of the judge: either the bytes are not such an encoding of the call, or the
+   call differs from what they encode *)
+Theorem C01_judge_accepts_spec_encoding : forall ps m r r' s c ops0 name ops dc,
+  let sh := shape_of_row m r (rhead_of s) in
+  let bs := senc_ord ps m sh s c in
+  wf m sh s = true -> adm m sh s c = true -> prefix_order_ok ps (s_pfx s) = true -> In r (bucket (s_opc s)) ->
+  head_ok m r (rhead_of s) = true -> tail_ok m r s = true -> mk_operands m r s (r_ops r) = Some ops0 ->
+  row_of (r_id r) = Some r' -> r_name r' = name -> deco_match dc (deco_of r s) = true ->
+  (let dops := rel_from_start (r_ops r) ops0 (Z.of_nat (length bs)) in
+   ops_match m (r_ops r') (op_bits (r_ops r')) ops dops = true \/
+   ops_match m (explicit_specs (r_ops r')) (op_bits (r_ops r')) ops (explicit_only (r_ops r') dops) = true) ->
+  fst (judge bucket wbucket row_of m name ops dc bs) = 0.
+Proof.
+  intros ps m r r' s c ops0 name ops dc sh bs Hwf Hadm Hord Hb Hh Ht Hm Hr Hn Hd Ho.
+  pose proof (denote_senc_ord bucket ps m r s c [] ops0 Hwf Hadm Hord Hb Hh Ht Hm) as D. cbv zeta in D. fold sh in D.
+  rewrite app_nil_r in D. fold bs in D.
+  apply (C01_judge_ok_complete m name ops dc bs (r_id r) (rel_from_start (r_ops r) ops0 (Z.of_nat (length bs))) (deco_of r s) r'); try assumption.
+  apply denote2_plain. exact D.
+Qed.
+Print Assumptions C01_judge_accepts_spec_encoding.
+
+Theorem C01_example_frame :
+  map (fun c => match c with (rid, _, _, len) => (rid, len) end) (denote2 bucket wbucket M64 [72; 1; 200]) =
+  map (fun c => match c with (rid, _, _, len) => (rid, len) end) (denote2 bucket wbucket M64 [72; 1; 200; 196; 98; 155; 240; 102]) /\
+  length (denote2 bucket wbucket M64 [72; 1; 200]) = 1%nat.
+Proof. exact ex_frame_add. Qed.
+Print Assumptions C01_example_frame.
+
+(* round 6: uniqueness for the denotation the judge really uses (`denote2`), all cases: any two readings of any byte string are two
+   one-instruction readings (overlapping rows of one bucket, same mnemonic up to the alias list), or two wait readings (the same for the
+   wait buckets), or have DIFFERENT lengths (FWAIT alone against FWAIT + wait form) -- so among the full-length readings the mnemonic is
+   unique up to aliases, for all inputs *)
+Theorem C01_denote2_unique : forall m bs rid1 ops1 dd1 len1 rid2 ops2 dd2 len2,
+  In (rid1, ops1, dd1, len1) (denote2 bucket wbucket m bs) -> In (rid2, ops2, dd2, len2) (denote2 bucket wbucket m bs) ->
+  (exists r1 r2 h, In r1 (bucket (rh_opc h)) /\ In r2 (bucket (rh_opc h)) /\ r_id r1 = rid1 /\ r_id r2 = rid2 /\
+                   may_overlap r1 r2 = true /\ alias_ok db_aliases (r_name r1) (r_name r2) = true) \/
+  (exists r1 r2 h, In r1 (wbucket (rh_opc h)) /\ In r2 (wbucket (rh_opc h)) /\ r_id r1 = rid1 /\ r_id r2 = rid2 /\
+                   may_overlap r1 r2 = true /\ alias_ok db_aliases (r_name r1) (r_name r2) = true) \/
+  len1 <> len2.
+Proof.
+  intros m bs rid1 ops1 dd1 len1 rid2 ops2 dd2 len2 H1 H2.
+  apply C01_denote2_cases in H1. apply C01_denote2_cases in H2.
+  destruct H1 as [H1|[rest1 [l1 [E1 [L1 H1]]]]]; destruct H2 as [H2|[rest2 [l2 [E2 [L2 H2]]]]].
+  - left. exact (denote_unique_names bucket db_aliases db_unique _ _ _ _ _ _ _ _ _ _ H1 H2).
+  - right. right. subst bs len2. destruct (C01_denote2_readings_separated _ _ _ _ _ _ _ _ _ _ H1 H2) as [A B]. subst len1. intros E. rewrite <- E in B. inversion B. inversion H0.
+  - right. right. subst bs len1. destruct (C01_denote2_readings_separated _ _ _ _ _ _ _ _ _ _ H2 H1) as [A B]. subst len2. intros E. rewrite E in B. inversion B. inversion H0.
+  - right. left. rewrite E1 in E2. inversion E2; subst rest2. exact (denote_unique_names wbucket db_aliases db_wait_unique _ _ _ _ _ _ _ _ _ _ H1 H2).
+Qed.
+Print Assumptions C01_denote2_unique.
+
+(* round 6: the four verdicts of the judge, each characterised exactly, for all inputs: 0 = some good reading has the full length;
+   1 = no reading; 2 = readings, none good; 3 = good readings, none of the full length (good_reading = the test of one reading: row of
+   the called mnemonic, decorations and operands match) *)
+Theorem C01_judge_verdicts_spec : forall m name ops dc bs,
+  let v := fst (judge bucket wbucket row_of m name ops dc bs) in
+  let rs := denote2 bucket wbucket m bs in
+  (v = 0 <-> exists c, In c rs /\ good_reading row_of m name ops dc c = true /\ reading_len c = length bs) /\
+  (v = 1 <-> rs = []) /\
+  (v = 2 <-> rs <> [] /\ forall c, In c rs -> good_reading row_of m name ops dc c = false) /\
+  (v = 3 <-> (exists c, In c rs /\ good_reading row_of m name ops dc c = true) /\
+             forall c, In c rs -> good_reading row_of m name ops dc c = true -> reading_len c <> length bs).
+Proof. exact (judge_verdicts_spec bucket wbucket row_of). Qed.
+Print Assumptions C01_judge_verdicts_spec.
+
+(* the judged call in the instruction stream: when the judge answers 0 for the appended bytes bs, some reading of bs that is the call
+   (good_reading) has the full length, and it is a reading -- same row, operands, decorations, length |bs| -- of bs followed by ANY bytes:
+   whatever is appended after the instruction, the stream starts with the call and the next instruction starts right after it *)
+Theorem C01_judged_call_in_stream : forall m name ops dc bs,
+  fst (judge bucket wbucket row_of m name ops dc bs) = 0 ->
+  exists c, good_reading row_of m name ops dc c = true /\ reading_len c = length bs /\
+            forall t, In c (denote2 bucket wbucket m (bs ++ t)).
+Proof.
+  intros m name ops dc bs H.
+  destruct (C01_judge_verdicts_spec m name ops dc bs) as [[H0 _] _]. cbv zeta in H0. destruct (H0 H) as [c [Hin [Hg Hl]]].
+  exists c. repeat split; try assumption. intros t.
+  destruct c as [[[rid dops] dd] len]. cbn [reading_len] in Hl. subst len.
+  pose proof (C01_denote_frame_all m bs rid dops dd (length bs) Hin t) as F. rewrite firstn_all in F. exact F.
+Qed.
+Print Assumptions C01_judged_call_in_stream.
+
+
+(* round 6, encoder side: the structural encoder is prefix-free and injective whatever the encoder choices -- no byte string is the
+   encoding of two instructions, no encoding is a proper prefix of another -- and the round trip holds for AsmJit's choice of
+   ModRM.mod with NO admissibility hypothesis left *)
+Theorem C01_senc_prefix_free : forall m sh s c r s' c' r',
+  wf m sh s = true -> adm m sh s c = true -> wf m sh s' = true -> adm m sh s' c' = true ->
+  senc m sh s c ++ r = senc m sh s' c' ++ r' ->
+  s = s' /\ senc m sh s c = senc m sh s' c' /\ r = r'.
+Proof. exact senc_prefix_free. Qed.
+Print Assumptions C01_senc_prefix_free.
+
+Theorem C01_sdec_senc_aj : forall m sh s c rest,
+  wf m sh s = true ->
+  match s_modrm s with MMem _ mm => c_mod c = aj_mod (a16 m (s_pfx s)) (sh_n sh) mm | _ => True end ->
+  sdec m sh (senc m sh s c ++ rest) = Some (s, length (senc m sh s c)).
+Proof. exact sdec_senc_aj. Qed.
+Print Assumptions C01_sdec_senc_aj.
+
+(* round 6: the round trip for ANY order of the legacy prefixes.  senc_ord ps = the structural encoder with the prefix bytes ps in place of
+   the canonical list; prefix_order_ok ps p (decidable): ps are prefix bytes, as many as the canonical list, setting exactly the record p.
+   AsmJit's order (lock / rep, segment, 67, then the mandatory 66 / F2 / F3) is one instance; every other permutation is covered too *)
+Theorem C01_sdec_senc_any_prefix_order : forall ps m sh s c rest,
+  wf m sh s = true -> adm m sh s c = true -> prefix_order_ok ps (s_pfx s) = true ->
+  sdec m sh (senc_ord ps m sh s c ++ rest) = Some (s, length (senc_ord ps m sh s c)).
+Proof. exact sdec_senc_ord. Qed.
+Print Assumptions C01_sdec_senc_any_prefix_order.
+
+Theorem C01_prefix_order_examples :
+  let p := mkP true false false true true 5 in
+  enc_prefixes p = [240; 100; 102; 103] /\ prefix_order_ok [240; 100; 103; 102] p = true /\ prefix_order_ok [103; 102; 100; 240] p = true /\
+  prefix_order_ok [240; 100; 103; 102; 102] p = false /\ prefix_order_ok [240; 100; 103] p = false /\ prefix_order_ok [240; 101; 103; 102] p = false.
+Proof. exact prefix_order_examples. Qed.
+Print Assumptions C01_prefix_order_examples.
+
+(* round 6: byte-exact re-encoding.  `reencodes` (decidable; evaluated by the extracted model for every accepted call, evidence
+   calls_whose_bytes_are_an_output_of_the_proven_encoder) says the first len bytes ARE senc_ord of a well-formed instruction under an
+   admissible choice and an admissible prefix order; then the byte string is that encoding followed by the rest, and decodes to it *)
+Theorem C01_reencodes_sdec : forall m sh s c ps bs len, reencodes m sh s c ps bs len = true ->
+  bs = senc_ord ps m sh s c ++ skipn len bs /\ sdec m sh bs = Some (s, length (senc_ord ps m sh s c)).
+Proof. exact reencodes_sdec. Qed.
+Print Assumptions C01_reencodes_sdec.
+
+(* the meaning of a `true` answer of the extracted check that runs on every accepted call, as a theorem (not by reading its code) *)
+Theorem C01_reencode_check_sound : forall m bs rid, In (rid, true) (reencode_check bucket m bs) ->
+  exists sh s c ps len, bs = senc_ord ps m sh s c ++ skipn len bs /\ sdec m sh bs = Some (s, length (senc_ord ps m sh s c)).
+Proof. exact (reencode_check_sound bucket). Qed.
+Print Assumptions C01_reencode_check_sound.
+
+Theorem C01_reencodes_example :
+  let sh := mkSh true false 0 1 in
+  let s := mkS (mkP true false false true true 5) KLeg false false 0 false 0 0 0 1 0 false false (MMem 0 (mkM (BReg 3) None 0 0)) 0 in
+  reencodes M32 sh s (mkC false 0 false) [240; 100; 103; 102] [240; 100; 103; 102; 1; 7; 144] 6 = true /\
+  reencodes M32 sh s (mkC false 0 false) [240; 100; 103; 102; 102] [240; 100; 103; 102; 102; 1; 7; 144] 7 = false /\
+  sdec M32 sh [240; 100; 103; 102; 102; 1; 7; 144] = Some (s, 7%nat).
+Proof. exact reencodes_example. Qed.
+Print Assumptions C01_reencodes_example.
+
+(* round 6: readings do not depend on the order of the prefixes, and the containment theorem holds for every admissible order *)
+Theorem C01_denote_any_prefix_order : forall m ps p X, wf_pfx p = true -> prefix_order_ok ps p = true ->
+  denote bucket m (ps ++ X) = denote bucket m (enc_prefixes p ++ X).
+Proof. exact (denote_any_order bucket). Qed.
+Print Assumptions C01_denote_any_prefix_order.
+
+Theorem C01_denote_senc_any_prefix_order : forall ps m r s c rest ops,
+  let sh := shape_of_row m r (rhead_of s) in
+  wf m sh s = true -> adm m sh s c = true -> prefix_order_ok ps (s_pfx s) = true -> In r (bucket (s_opc s)) ->
+  head_ok m r (rhead_of s) = true -> tail_ok m r s = true -> mk_operands m r s (r_ops r) = Some ops ->
+  In (r_id r, rel_from_start (r_ops r) ops (Z.of_nat (length (senc_ord ps m sh s c))), deco_of r s, length (senc_ord ps m sh s c))
+     (denote bucket m (senc_ord ps m sh s c ++ rest)).
+Proof. exact (denote_senc_ord bucket). Qed.
+Print Assumptions C01_denote_senc_any_prefix_order.
+
+(* round 6: all three encoder choices of the emitter inside the model (X86Shortest.aj_choices: two-byte VEX whenever possible, a SIB byte only
+   where needed, mod = aj_mod): admissible for EVERY instruction -- so the round trip needs no `adm` hypothesis for them -- and the
+   SHORTEST encoding among all admissible choices.  The check compares the VEX / SIB / mod choices of every accepted call with them
+   (evidence: calls_whose_vex_and_sib_choices_are_the_modelled_ones, calls_whose_mod_field_is_the_modelled_choice) *)
+Theorem C01_aj_choices_admissible : forall m sh s, adm m sh s (aj_choices m sh s) = true.
+Proof. exact aj_choices_adm. Qed.
+Print Assumptions C01_aj_choices_admissible.
+
+Theorem C01_aj_choices_shortest : forall m sh s c, adm m sh s c = true ->
+  (length (senc m sh s (aj_choices m sh s)) <= length (senc m sh s c))%nat.
+Proof. exact aj_choices_shortest. Qed.
+Print Assumptions C01_aj_choices_shortest.
+
+Theorem C01_aj_choices_example :
+  let sh := mkSh true false 0 1 in
+  let s := mkS (mkP false false false false false 0) KLeg false false 0 false 0 0 0 139 0 false false (MMem 1 (mkM (BReg 0) None 0 0)) 0 in
+  aj_choices M32 sh s = mkC false 0 false /\ senc M32 sh s (aj_choices M32 sh s) = [139; 8] /\
+  length (senc M32 sh s (mkC false 2 true)) = 7%nat.
+Proof. exact aj_choices_example. Qed.
+Print Assumptions C01_aj_choices_example.
+
+(* round 6: the legacy opcodes that double as VEX / EVEX lead bytes -- les (C4), lds (C5), bound (62) in 32-bit mode -- which X86Model.wf
+   excludes: their own round trip (X86Leg32.wf_leg32: exactly these instructions, memory form), for any prefix order through
+   reencodes32.  With it every instruction AsmJit emits in either mode has a proved round trip *)
+Theorem C01_sdec_senc_leg32 : forall sh s c rest, wf_leg32 sh s = true -> adm M32 sh s c = true ->
+  sdec M32 sh (senc M32 sh s c ++ rest) = Some (s, length (senc M32 sh s c)).
+Proof. exact sdec_senc_leg32. Qed.
+Print Assumptions C01_sdec_senc_leg32.
+
+Theorem C01_reencodes32_sdec : forall sh s c ps bs len, reencodes32 sh s c ps bs len = true ->
+  bs = senc_ord ps M32 sh s c ++ skipn len bs /\ sdec M32 sh bs = Some (s, length (senc_ord ps M32 sh s c)).
+Proof. exact reencodes32_sdec. Qed.
+Print Assumptions C01_reencodes32_sdec.
+
+Theorem C01_leg32_example :
+  let sh := mkSh true false 0 1 in
+  let s := mkS p0 KLeg false false 0 false 0 0 0 196 0 false false (MMem 7 (mkM BNone (Some 7) 3 1024)) 0 in
+  wf_leg32 sh s = true /\ wf M32 sh s = false /\ senc M32 sh s (mkC false 0 false) = [196; 60; 253; 0; 4; 0; 0] /\
+  sdec M32 sh [196; 60; 253; 0; 4; 0; 0; 144] = Some (s, 7%nat).
+Proof. exact leg32_example. Qed.
+Print Assumptions C01_leg32_example.
+
+Theorem C01_senc_choices_example :
+  let sh := mkSh true false 0 1 in
+  let s := mkS (mkP false false false false false 0) KLeg false false 0 false 0 0 0 139 0 false false (MMem 1 (mkM (BReg 0) None 0 0)) 0 in
+  wf M32 sh s = true /\ adm M32 sh s (mkC false 0 false) = true /\ adm M32 sh s (mkC false 2 true) = true /\
+  senc M32 sh s (mkC false 0 false) = [139; 8] /\ senc M32 sh s (mkC false 2 true) = [139; 140; 32; 0; 0; 0; 0] /\
+  aj_mod (a16 M32 (s_pfx s)) (sh_n sh) (mkM (BReg 0) None 0 0) = 0.
+Proof. exact senc_choices_example. Qed.
+Print Assumptions C01_senc_choices_example.
 
 (* witnesses: fstsw [eax] = 9B DD 38; an override prefix before the 9B is FWAIT's (the defect repaired by bed3c82), after it the operand's *)
 Theorem C01_example_fstsw_wait : fst (judge bucket wbucket row_of M32 id_fstsw [OMem 2 0 3 0 0 0 0 0 0] (mkD false false false 0 0 false (-1)) [155; 221; 56]) = 0.
